@@ -273,4 +273,39 @@ example : containsCache (.seq [.leaf, .split [.seq [.leaf], .seq [.split [.seq [
 example : HasCache (.seq [.leaf, .split [.seq [.cache]]]) :=
   .inSeq (t := .split [.seq [.cache]]) (by simp) (.inSplit (t := .seq [.cache]) (by simp) (.inSeq (t := .cache) (by simp) .here))
 
+/-- the tree of a flat branch -/
+def elTree : ElSpec → CTree
+  | .map _ _ => .leaf
+  | .cache _ _ => .cache
+
+theorem anyCache_map_elTree : ∀ (els : List ElSpec), anyCache (els.map elTree) = !(cacheIds els).isEmpty
+  | [] => rfl
+  | .map _ _ :: els => by simp [anyCache, elTree, containsCache, cacheIds, anyCache_map_elTree els]
+  | .cache _ _ :: els => by simp [anyCache, elTree, containsCache, cacheIds]
+
+/-- the rule used by `runSplit` for a flat branch is the tree rule — also when the branch is wrapped into further
+containers (`wrapTree`), at any depth -/
+theorem effBufsize_eq_tree (bufsize : Option Nat) (branch : List ElSpec) :
+    effBufsize true bufsize branch = effBufsizeTree bufsize [.seq (branch.map elTree)] := by
+  unfold effBufsize effBufsizeTree
+  simp only [anyCache, containsCache, anyCache_map_elTree, Bool.or_false, Bool.true_and]
+  cases bufsize <;> simp
+
+/-- a tree wrapped into a chain of containers (`true` = a Split with this one member, `false` = a Sequence) -/
+def wrapTree : List Bool → CTree → CTree
+  | [], t => t
+  | true :: w, t => .split [wrapTree w t]
+  | false :: w, t => .seq [wrapTree w t]
+
+theorem containsCache_wrapTree : ∀ (w : List Bool) (t : CTree), containsCache (wrapTree w t) = containsCache t
+  | [], _ => rfl
+  | true :: w, t => by simp [wrapTree, containsCache, anyCache, containsCache_wrapTree w t]
+  | false :: w, t => by simp [wrapTree, containsCache, anyCache, containsCache_wrapTree w t]
+
+/-- **depth does not matter**: wrapping the branch into any chain of Sequences and Splits leaves the buffer size
+`Split.__init__` chooses unchanged -/
+theorem effBufsizeTree_wrap (bufsize : Option Nat) (w : List Bool) (t : CTree) :
+    effBufsizeTree bufsize [wrapTree w t] = effBufsizeTree bufsize [t] := by
+  simp [effBufsizeTree, anyCache, containsCache_wrapTree]
+
 end Lena.C18
